@@ -16,7 +16,7 @@
    the probe is not seen.  maybe_lock swallows errors of kind Unsupported (EOPNOTSUPP / ENOTSUP from the open
    or the fcntl): [not_unsupported o i] excludes exactly the fault oracles that inject such an error into the
    two probe calls. *)
-From FV Require Import Base FsModel AtomicModel AtomicProofs AtomicProofs2 AtomicProofs3 AtomicProofs4.
+From FV Require Import Base FsModel AtomicModel AtomicProofs AtomicProofs2 AtomicProofs3 AtomicProofs4 AtomicProofs6.
 Open Scope N_scope.
 
 (* every operation: Err, file system unchanged (Leibniz), nothing logged but the error itself, at most the
@@ -49,6 +49,16 @@ Theorem C20_no_lock_flag : forall (c : fcmd) (o : oracle) (i : nat) (s : fs) (l 
 Proof. exact c20_no_lock_flag. Qed.
 Print Assumptions C20_no_lock_flag.
 
+(* a script of ANY length whose victims are all locked by other processes: the file system is the same state
+   (Leibniz), every command reports Err, nothing is counted, one warning per command — for every oracle that
+   injects no Unsupported error (locked_victim s c = the victim path is resolved and names a locked file in s) *)
+Theorem C20_all_locked_script : forall (o : oracle), (forall k, not_unsupported o k) ->
+  forall (cs : list fcmd) (s : fs), Forall (locked_victim s) cs ->
+  forall i, let t := run_script true o i cs s in
+    sfs t = s /\ sresults t = repeat IErr (length cs) /\ processed_count t = 0%nat /\ swarn t = length cs.
+Proof. exact c20_all_locked. Qed.
+Print Assumptions C20_all_locked_script.
+
 (* ---------------------------------------------------------------- non-vacuity *)
 Definition l_t : path := [root_c; [119]; [102; 49]].
 Definition l_a : path := [root_c; [119]; [102; 50]].
@@ -67,3 +77,10 @@ Example C20_contrast :
   (* an injected EOPNOTSUPP on the fcntl call makes maybe_lock proceed unlocked: the excluded oracle class *)
   ores (run (fun i => if Nat.eqb i 1 then Some (mkFault EOPNOTSUPP None) else None) 0 (prog_of true (FRemove l_a)) l_s) = IOk.
 Proof. vm_compute. repeat split; reflexivity. Qed.
+(* the hypothesis of C20_all_locked_script is satisfiable: two commands on the locked file *)
+Example C20_all_locked_inhabited :
+  Forall (locked_victim l_s) [FRemove l_a; FRemove l_a] /\ (forall k, not_unsupported nofault k).
+Proof.
+  split; [|intros k; exact (proj1 (proj2 (proj2 (proj2 C20_hyp_inhabited))))].
+  repeat constructor; try (exists 2; split; reflexivity).
+Qed.
